@@ -520,6 +520,8 @@ class MarkdownNormalizer(Renderer):
         rule = "- - -" if self._prefix.rstrip().endswith("*") else "* * *"
         result = f"{self._prefix}{rule}\n"
         self._prefix = self._second_prefix
+        # After rendering a thematic break, don't suppress the next item break
+        self._suppress_item_break = False
         return result
 
     def render_heading(self, element: block.Heading) -> str:
